@@ -380,27 +380,45 @@ func rulesTranslate(c *Ctx, r *Report, g *ssa.Global, codon map[[3]int64]int64) 
 			}
 		}
 	}
+	var otherAppends []string
 	instrs(f, func(in ssa.Instruction) {
 		if cl, ok := in.(*ssa.Call); ok {
 			if b, ok := cl.Call.Value.(*ssa.Builtin); ok && b.Name() == "append" {
+				if et, isSl := cl.Type().Underlying().(*types.Slice); !isSl || !types.Identical(et.Elem(), types.Typ[types.Byte]) {
+					return
+				}
+				isLk := false
 				if sl, ok := cl.Call.Args[1].(*ssa.Slice); ok {
 					if al, ok := sl.X.(*ssa.Alloc); ok {
+						n, nLk := 0, 0
 						for _, ref := range *al.Referrers() {
 							if ia, ok := ref.(*ssa.IndexAddr); ok {
 								for _, r2 := range *ia.Referrers() {
-									if st, ok := r2.(*ssa.Store); ok && st.Val == ssa.Value(lk) {
-										okAppend = true
+									if st, ok := r2.(*ssa.Store); ok {
+										n++
+										if st.Val == ssa.Value(lk) {
+											nLk++
+										}
 									}
 								}
 							}
 						}
+						isLk = n == 1 && nLk == 1
 					}
+				}
+				if isLk {
+					okAppend = true
+				} else {
+					otherAppends = append(otherAppends, c.pos(cl.Pos()))
 				}
 			}
 		}
 	})
+	if len(otherAppends) > 0 {
+		okAppend = false
+	}
 	r.check(okPanic, "VSA-TR", where, "miss panics", c.pos(lk.Pos()), "a codon missing from the table (value 0) always panics", "a table miss does not always panic")
-	r.check(okAppend, "VSA-TR", where, "one letter per codon", c.pos(lk.Pos()), "the looked-up amino acid is what is appended", "the appended byte is not the table value of the codon")
+	r.check(okAppend, "VSA-TR", where, "one letter per codon", c.pos(lk.Pos()), "every append of a byte is the amino acid just looked up for the current codon", fmt.Sprintf("a byte appended to the result is not the table value looked up for the current codon (other appends at %v): a result can be produced without the lookup that rejects bad codons", otherAppends))
 }
 
 func loopPhiOf(idx ssa.Value) *ssa.Phi {
